@@ -6,7 +6,7 @@ Templates are transcribed from RFC 4880 5.2.4 (+ rfc4880bis for 0x16 and 0x28) a
 import re
 
 from .interp import Interp, Scenario, Sym, Const, Enum, Bytes, render, render_items, merge_consts, render_item, lin_norm, sl
-from .templates import C, LEN, BYTE, SYM, Pred, match_any, render_template, split_top
+from .templates import C, LEN, BYTE, SYM, Pred, match_any, render_template, split_top, length_covers_run
 from .loader import AnalysisError
 from . import regexast
 
@@ -48,16 +48,9 @@ def trailer(VERSION, SIGTYPE, PKALG, HALG, HASHED):
     five_text = render_items(five)
 
     def lenpred(item):
-        if item[0] != 'INT' or item[1] != '4':
-            return False
-        t = item[2].replace(' ', '')
-        if t == ('len(%s)' % five_text).replace(' ', ''):
-            return True
-        # four header octets plus the hashed area, in any integer-linear spelling (4 + len(h), len(h) + 2 + 2, ...)
-        try:
-            return lin_norm(item[2]) == lin_norm('4 + len(%s)' % HASHED)
-        except Exception:
-            return False
+        # the four header octets plus the hashed area, in any integer-linear spelling: len(whole run), 4 + len(h), len(h) + 2 + 2,
+        # len(fixed) + len(h) with fixed the four octets, ... - every covered item exactly once
+        return item[0] == 'INT' and item[1] == '4' and length_covers_run(item[2], five)
     return five + [C('04ff'), Pred('LEN(4; version..hashed-area)', lenpred)]
 
 
